@@ -378,3 +378,10 @@ Section ClientS.
       end
     end.
 End ClientS.
+
+(* strconv.Atoi on what itoa writes: decimal digits only *)
+Definition atoi (s : str) : option N :=
+  match s with
+  | [] => None
+  | _ => if forallb is_digit s then Some (fold_left (fun a c => 10 * a + (c - 48)) s 0) else None
+  end.
